@@ -71,6 +71,22 @@ CHECKS = {
   text="Seeded random histories and hook-synchronised concurrent mixes of one auth.Client against 2-4 modelled registry hosts and token services (Basic, Bearer via distribution GET and OAuth2 POST flows, realms on own or foreign hosts, scheme changes, scope hints, challenge scope strings in any order/duplication) for every cache flavour. Every request at the innermost transport is scanned for every secret in the world and judged for host, scheme and canonical scope set (independent canonicaliser); every returned response is matched with the registry model's last answer (non-401, at most 3 sends, at most 1 token fetch). Coalescing is made deterministic by holding the token endpoint or credential helper until all concurrent requests have entered Cache.Set, then owners or waiters have their contexts ended. The concurrent workload also runs under the race detector.",
   note="The in-process transport emulates net/http's context-error behaviour. Scope-set equality is demanded for NewCache and no cache only (the single-context cache is host-keyed by documentation). Valid credentials means the client's secrets are the ones the model accepts. Interleavings are sampled; late-arrival coalescing is counted, never demanded.",
   tech="runtime monitoring: secret/token monitor at the innermost RoundTripper plus response oracle, hook-barrier concurrency, race detector"),
+ "C05": dict(cat="exploration",
+  text="Seeded cases over 15 descriptor classes (right/wrong digest, short/long/zero/negative size, malformed and unsupported algorithms) x 15 reader-behaviour classes (chunkings, 0-byte reads, n>0 with EOF, errors before/at/after Size, early EOF, trailing bytes) x 13 store kinds and APIs (memory, size-limited and caching wrappers, OCI Store and Storage, file store named and fallback, ReadAll, FetchAll, VerifyReader, CopyBuffer); each case is judged by predicates computed from the case values alone (refused push leaves Exists false, Fetch failing and blobs/ unchanged; data handed back only when length and digest match; bytes beyond Size are an error). Concurrent cases push good, bad and trailing content under one digest while fetchers re-hash everything they can read, also under the race detector.",
+  note="Trusted base: Go's crypto hashes and the harness's hostile reader. Push outcome is not judged, only consistency, when the first Size bytes match and the reader then delivers more or fails (the statement leaves it open). ingest/ leftovers are recorded, not judged. Content up to about 1 MiB; interleavings sampled.",
+  tech="runtime monitoring: hostile-input generation with statement-derived oracle, concurrent stress plus Go race detector"),
+ "C18": dict(cat="fault_enumeration",
+  text="For each scripted case (document, prefix operations, one Put or Delete) the operation runs in a child process under the ptrace tool crashat and is killed before each of its file-system-mutating system calls in turn, exhaustively per case; after every kill the config file must be semantically the complete old or the complete new document with owner-only mode. Two exploration phases run as well: random pre-existing documents x Put/Get/Delete/reopen histories checked step by step against a reference model (round trip, untouched keys and entries preserved by semantic JSON equality, mode 0600), and 4-16 goroutines per store checked with porcupine per address plus a concurrent file reader demanding a complete file at every instant, also under the race detector.",
+  note="Crash points are the syscall entries recognised by tools/crashat.c; a kill inside a single write(2) is not explored (the data goes to a temp file). Strings are valid UTF-8; pre-existing documents are well-formed docker configs. Interleavings sampled. Trusted base: the reference model, semantic JSON compare, porcupine, crashat.",
+  tech="runtime monitoring: model-based oracle + ptrace crash-point enumeration + porcupine linearizability check + race detector"),
+ "C19": dict(cat="exploration",
+  text="Seeded option sets drive the real PackManifest and Pack (versions 1.0/1.1/unsupported; artifact types valid, invalid by each RFC 6838 rule and at boundary lengths; config descriptor / annotations / neither; layers nil/empty/many; subject; created absent/valid/malformed) against memory, OCI-layout, file, registry-model and pusher-only targets, each wrapped in a Push/Exists recorder. Successful results are fetched back, strictly decoded and compared field by field with an independent builder of the documented mapping; invented blobs must exist, the result must CopyGraph into an empty store, fixed-created repeats must be identical; documented rejections must leave no Push (no manifest Push for a malformed created time).",
+  note="Held on the sampled option sets. Created values are judged only when clearly valid or clearly malformed (parser-vs-RFC edges such as a one-digit hour are unjudged). Trusted base: the hand-written RFC 6838 / RFC 3339 recognisers, the independent builder, the registry model.",
+  tech="runtime monitoring: recording storage wrapper + independent builder oracle over seeded inputs"),
+ "C20": dict(cat="exploration",
+  text="Bounded-exhaustive differential monitoring of the real ParseReference / Reference.String / Repository.ParseReference against an independent hand-written grammar recogniser: every sequence of <=6 (quick) / <=7 (thorough) tokens of an 18-token vocabulary reaching all four forms, every string of <=5/<=6 characters over 14 characters, a digest grid, plus 10^6/10^7 seeded random and mutated references with boundary lengths. Seeded Repository bases x reference forms are driven through the request-issuing operations with a recording RoundTripper that judges every URL (scheme, host, exact /v2/<repo>/<kind>/<ref> path, no query or fragment).",
+  note="Held on the strings enumerated. Acceptance is not judged for strings ending in a bare ':'/'@' and for registries only net/url can adjudicate (as the property says); parts and round trip are still checked whenever the library accepts. Trusted base: the recogniser, go-digest's registered algorithms, the canned-response RoundTripper.",
+  tech="runtime monitoring: bounded-exhaustive + random differential execution against an independent recogniser; recording HTTP transport"),
 }
 
 PENDING_REASON = "check under construction in this session (not yet claimed); the technique applies"
